@@ -108,9 +108,9 @@ type WResult struct {
 	LocksLeft   []string       `json:"locks_left"`
 	Post        []int          `json:"post"`
 	Panics      map[int]string `json:"panics,omitempty"`
-	Stuck       []string       `json:"stuck,omitempty"`         // threads that were neither finished nor at a yield point after a step
-	Suspected   []string       `json:"suspected,omitempty"`     // nobody enabled by the notes: the parked threads (confirmed on the real mutexes)
-	TrackingOff bool           `json:"tracking_off,omitempty"`  // ... and they all ran to their end: the notes had lost track, no deadlock
+	Stuck       []string       `json:"stuck,omitempty"`        // threads that were neither finished nor at a yield point after a step
+	Suspected   []string       `json:"suspected,omitempty"`    // nobody enabled by the notes: the parked threads (confirmed on the real mutexes)
+	TrackingOff bool           `json:"tracking_off,omitempty"` // ... and they all ran to their end: the notes had lost track, no deadlock
 	Truncated   bool           `json:"truncated,omitempty"`
 	SetupFail   string         `json:"setup_fail,omitempty"`
 	Sites       map[string]int `json:"sites,omitempty"` // inner yield points at which some thread parked in this execution
